@@ -29,6 +29,16 @@ class C10(EvalFamProp):
         out = super().gen_cases(rng, n, tier)
         for c in out:
             c['vseed'] = rng.randrange(1 << 30)
+        # evaluated code that hands back a NODE of the tree (`ayns.ctx.get_node(path)`): the node is evaluated through the context, once,
+        # whichever of the two keys comes first (seeded change S9-C10: such a node was evaluated past the per-node cache). The code is
+        # outside the model's restricted !eval: oracle only.
+        for _ in range(max(2, n // 40)):
+            call = M([(0, S(rng.randrange(9)))], tag={'k': 'call', 'f': rng.choice(['rec.f', 'rec.g'])})
+            items = [('alias', Stext("ayns.ctx.get_node('worker')", 'eval')), ('worker', call), ('k', S(1))]
+            if rng.random() < 0.5:
+                items.append(('again', Stext('worker', 'xref')))
+            rng.shuffle(items)
+            out.append({'docs': [{'raw': M(items)}], 'style': ['flow', 0, 0], 'vseed': rng.randrange(1 << 30), 'ctxfam': True})
         return out
 
     def impl(self, case):
@@ -58,7 +68,12 @@ class C10(EvalFamProp):
             io['reuse'] = {'err': 'harness:' + str(e)[:80]}
         return io
 
+    def model_obs(self, case, answers):
+        return {'err': 'unsupported'} if case.get('ctxfam') else super().model_obs(case, answers)
+
     def model_requests(self, case):
+        if case.get('ctxfam'):
+            return []
         # the model is also asked about the permuted layout: a dependency cycle through an !eval name (recorded finding D21) may be
         # reached in one layout only (another error comes first in the other)
         rng = _random.Random(case.get('vseed', 0))
@@ -69,6 +84,17 @@ class C10(EvalFamProp):
         cfg = io['cfg']
         if cfg.get('err') == 'HANG':
             return 'evaluation did not terminate'
+        if case.get('ctxfam'):
+            for what, r in (('as written', cfg), ('with permuted keys', io['perm']['cfg'])):
+                if 'ok' not in r:
+                    return f'{what}: a node handed back by evaluated code must evaluate: ' + json.dumps({k: v for k, v in r.items() if k != "log"})[:160]
+                calls = [l for l in r.get('log', []) if l.startswith('call:')]
+                if len(calls) != 1:
+                    return f'{what}: the !call node reached through its own key and through the node handed back by evaluated code ran {len(calls)} times'
+                d = dict((sc_py(k), v) for k, v in r['ok']['d'])
+                if d.get('alias') != d.get('worker'):
+                    return f'{what}: the value of the node handed back by evaluated code is not the value (the same object) of the node at its own key'
+            return None
         nodes = io.get('nodes')
         if nodes is None:
             return None
